@@ -194,6 +194,9 @@ class Env:
                 return self.const_label(val, args)
             return f"{nd.op_type}({','.join(render(i) for i in nd.input)})"
 
+        top = prod.get("r")
+        if top is not None and top.op_type == "Identity":  # build introduces its results through an Identity
+            return render(top.input[0])
         return render("r")
 
     def dispatch(self, settings, opname, oa, ob, via_operator=True):
